@@ -21,10 +21,10 @@ var propSpecs = []propSpec{
 	{
 		id: "C01",
 		runs: []runSpec{
-			{dir: "mux", entry: "ZZC01", quick: seq(0, []int{0, 1, 2, 3, 4, 5, 6, 7, 8, 9, 10, 11, 12, 13, 14, 15, 16}, 8), thorough: seq(0, []int{0, 1, 2, 3, 4, 5, 6, 7, 8, 9, 10, 11, 12, 13, 14, 15, 16}, 10)},
+			{dir: "mux", entry: "ZZC01", quick: seq(0, []int{0, 1, 2, 3, 4, 5, 6, 7, 8, 9, 10, 11, 12, 13, 14, 15, 16, 17, 18, 19, 20, 21, 22}, 8), thorough: seq(0, []int{0, 1, 2, 3, 4, 5, 6, 7, 8, 9, 10, 11, 12, 13, 14, 15, 16, 17, 18, 19, 20, 21, 22}, 10)},
 		},
 		covers:  []string{"404", "405", "options", "options-star", "served", "served-with-params"},
-		bounds:  "request path: every byte string of length <= 8 (all 256 byte values); method: each of GET HEAD POST OPTIONS DELETE PUT TRACE \"\" BOGUS plus every string of <= 3 free bytes; 17 route-table histories (Handle/Remove/Clean/Prefix.Clean, <= 10 operations) over literal, named, regexp, interceptor, ignored-name, endpoint and >=5-sibling shapes; interceptors digit/word/any and an arbitrary user-defined interceptor (an uninterpreted predicate: the verdict holds for every pure interceptor function; a counterexample carries the function table of the model)",
+		bounds:  "request path: every byte string of length <= 8 (all 256 byte values); method: each of GET HEAD POST OPTIONS DELETE PUT TRACE \"\" BOGUS plus every string of <= 3 free bytes; 23 route-table histories (Handle/Remove/Clean/Prefix.Clean, <= 10 operations) over literal, named, regexp (also with capture groups of their own), interceptor, ignored-name, endpoint, non-ASCII-literal and >=5-sibling shapes; interceptors digit/word/any and an arbitrary user-defined interceptor (an uninterpreted predicate: the verdict holds for every pure interceptor function; a counterexample carries the function table of the model)",
 		boundsT: "as quick, request path length <= 10",
 		outside: "longer paths; route tables other than the 8 listed histories; regexp rules other than \\d+ [a-z]+ [a-c]+ \\w* a|b a|bc; interceptor functions with side effects; patterns with braces in literal text; for patterns with '-' (ignored) parameters the path is matched against an anchored expression built from the pattern instead of being reconstructed",
 		assume:  []string{"patterns are well-formed"},
@@ -34,11 +34,11 @@ var propSpecs = []propSpec{
 		id: "C02",
 		runs: []runSpec{
 			{dir: "mux", entry: "ZZC02",
-				quick:    []int{8, 108, 208, 308, 408, 508, 608, 708, 808, 908, 1008, 1108, 1208, 1308, 1408, 1508, 1608, 1708, 1908, 2008, 2108, 2308, 2408, 2508, 2608, 2708, 2808, 2908, 3008, 3108, 3208, 3308},
-				thorough: []int{10, 110, 210, 310, 410, 510, 610, 710, 810, 910, 1010, 1110, 1210, 1310, 1410, 1510, 1610, 1710, 1806, 1910, 2010, 2110, 2208, 2310, 2410, 2510, 2610, 2710, 2810, 2910, 3010, 3110, 3210, 3310}},
+				quick:    []int{8, 108, 208, 308, 408, 508, 608, 708, 808, 908, 1008, 1108, 1208, 1308, 1408, 1508, 1608, 1708, 1908, 2008, 2108, 2308, 2408, 2508, 2608, 2708, 2808, 2908, 3008, 3108, 3208, 3308, 3408, 3508},
+				thorough: []int{10, 110, 210, 310, 410, 510, 610, 710, 810, 910, 1010, 1110, 1210, 1310, 1410, 1510, 1610, 1710, 1806, 1910, 2010, 2110, 2208, 2310, 2410, 2510, 2610, 2710, 2810, 2910, 3010, 3110, 3210, 3310, 3410, 3510}},
 		},
 		covers:  []string{"404", "matched", "matched-with-params"},
-		bounds:  "request path: every byte string of length <= 8; 32 add-only route tables (8 selections of 3-4 patterns from a 15-pattern pool plus a 6-literal-sibling bundle, each in two registration orders; 6 tables aimed at the first-byte index with a failing indexed literal, deep literal splits, one parameter with several suffixes, endpoint vs continuing parameters); reference = a resolver over the pattern strings that never builds a tree and returns the set of admissible outcomes",
+		bounds:  "request path: every byte string of length <= 8; 34 add-only route tables (two with a literal that starts with a non-ASCII byte; 8 selections of 3-4 patterns from a 15-pattern pool plus a 6-literal-sibling bundle, each in two registration orders; 6 tables aimed at the first-byte index with a failing indexed literal, deep literal splits, one parameter with several suffixes, endpoint vs continuing parameters); reference = a resolver over the pattern strings that never builds a tree and returns the set of admissible outcomes",
 		boundsT: "as quick with request path length <= 10, plus a table with four parameter kinds among >=5 children (length <= 6) and one with the three bundled interceptors at one position (length <= 8)",
 		outside: "longer paths; other tables; regexp rules whose alphabet overlaps the first byte of the literal that follows them; paths \"\" and \"*\"",
 		assume:  []string{"patterns are well-formed", "method GET only (method handling is C01/C03/C08)"},
@@ -47,10 +47,10 @@ var propSpecs = []propSpec{
 	{
 		id: "C03",
 		runs: []runSpec{
-			{dir: "mux", entry: "ZZC03", quick: []int{14, 24, 114, 124, 214, 224, 314, 324, 414, 424, 514, 524}, thorough: []int{15, 25, 35, 115, 125, 135, 215, 225, 235, 315, 325, 335, 415, 425, 435, 515, 525, 535}},
+			{dir: "mux", entry: "ZZC03", quick: []int{14, 24, 114, 124, 214, 224, 314, 324, 414, 424, 514, 524, 614, 624, 714, 724, 814, 824}, thorough: []int{15, 25, 35, 115, 125, 135, 215, 225, 235, 315, 325, 335, 415, 425, 435, 515, 525, 535, 615, 625, 635, 715, 725, 735, 815, 825, 835}},
 		},
 		covers:  []string{"history", "non-interference-checked"},
-		bounds:  "6 scenarios (a live route that is a proper prefix of a cleaned prefix; an indexed parent with a handler-less branch that is pruned over two removals; six literal siblings + parameter sibling; five top-level routes not starting with '/'; parameters with several methods; interceptor/regexp/named at one position), every history of <= 2 operations from an 8-9 operation alphabet (Handle, Remove(pattern), Remove(pattern, methods), Clean, Prefix.Clean, Resource.Clean) after the scenario's setup; after the last step: Routes() vs model, witness requests of every pattern x 5 methods, and the same symbolic request (path <= 4 bytes, 5 methods) before and after the step",
+		bounds:  "9 scenarios (a cleaned prefix that is itself a route; one removal pruning two levels below an indexed parent; a non-ASCII literal among siblings crossing the index threshold; a live route that is a proper prefix of a cleaned prefix; an indexed parent with a handler-less branch that is pruned over two removals; six literal siblings + parameter sibling; five top-level routes not starting with '/'; parameters with several methods; interceptor/regexp/named at one position), every history of <= 2 operations from a 6-10 operation alphabet (Handle, Remove(pattern), Remove(pattern, methods), Clean, Prefix.Clean, Resource.Clean) after the scenario's setup; after the last step: Routes() vs model, witness requests of every pattern x 5 methods, and the same symbolic request (path <= 4 bytes, 5 methods) before and after the step",
 		boundsT: "as quick with histories of <= 3 operations and symbolic paths <= 5 bytes",
 		outside: "longer histories, other pattern pools, paths longer than the bound",
 		assume:  []string{"the non-interference clause is asserted for every request that was dispatched to a route the step does not name"},
@@ -70,7 +70,7 @@ var propSpecs = []propSpec{
 	{
 		id: "C05",
 		runs: []runSpec{
-			{dir: "mux", entry: "ZZC05Req", quick: seq(0, []int{0, 1, 2, 3, 4, 5, 6, 7, 8, 9, 10, 11, 12, 13, 14, 15, 16}, 8), thorough: seq(0, []int{0, 1, 2, 3, 4, 5, 6, 7, 8, 9, 10, 11, 12, 13, 14, 15, 16}, 11)},
+			{dir: "mux", entry: "ZZC05Req", quick: seq(0, []int{0, 1, 2, 3, 4, 5, 6, 7, 8, 9, 10, 11, 12, 13, 14, 15, 16, 17, 18, 19, 20, 21, 22}, 8), thorough: seq(0, []int{0, 1, 2, 3, 4, 5, 6, 7, 8, 9, 10, 11, 12, 13, 14, 15, 16, 17, 18, 19, 20, 21, 22}, 11)},
 			{dir: "mux", entry: "ZZC05Grp", quick: []int{33}, thorough: []int{54}},
 			{dir: "mux", entry: "ZZC05Host", quick: []int{6}, thorough: []int{9}},
 			{dir: "mux", entry: "ZZC05Ver", quick: []int{6}, thorough: []int{10}},
@@ -79,7 +79,7 @@ var propSpecs = []propSpec{
 			{dir: "mux", entry: "ZZC07Wide", quick: []int{2}, thorough: []int{3}},
 		},
 		covers:  []string{"request", "group-request", "host-match", "version-match", "handle-registered", "handle-rejected", "rule-accepted", "rule-rejected", "rule-served", "after-a-wide-request"},
-		bounds:  "Router.ServeHTTP: path = every byte string <= 8 bytes (incl. \"\", \"*\", non-UTF-8), method = every byte string <= 4 bytes, on the 17 route-table histories of C01 (which include Remove/Clean/Prefix.Clean states); Group.ServeHTTP with Hosts, path-version, header-version and And matchers: Host <= 3 ASCII bytes, path <= 3 bytes, 5 methods, 6 Accept headers; Hosts.Match: Host <= 6 ASCII bytes on 9 domains after a Delete; path-version matcher: path <= 6 bytes; patterns: every byte string <= 6 bytes into CheckSyntax, URL, Router.URL (strict and not), Handle on an empty and on a populated router; regexp rules: every string of <= 3 symbols over {a ( ) | ? * \\ b} and of <= 5 symbols over {a ( ) | b} as the rule of /{id:rule} with and without a literal suffix - whatever Handle accepts must then serve every path of <= 2-3 bytes without a fault; a request capturing 30-32 parameters followed by one with a symbolic value",
+		bounds:  "Router.ServeHTTP: path = every byte string <= 8 bytes (incl. \"\", \"*\", non-UTF-8), method = every byte string <= 4 bytes, on the 23 route-table histories of C01 (which include Remove/Clean/Prefix.Clean states); Group.ServeHTTP with Hosts, path-version, header-version and And matchers: Host <= 3 ASCII bytes, path <= 3 bytes, 5 methods, 6 Accept headers; Hosts.Match: Host <= 6 ASCII bytes on 9 domains after a Delete; path-version matcher: path <= 6 bytes; patterns: every byte string <= 6 bytes into CheckSyntax, URL, Router.URL (strict and not), Handle on an empty and on a populated router; regexp rules: every string of <= 3 symbols over {a ( ) | ? * \\ b} and of <= 5 symbols over {a ( ) | b} as the rule of /{id:rule} with and without a literal suffix - whatever Handle accepts must then serve every path of <= 2-3 bytes without a fault; a request capturing 30-32 parameters followed by one with a symbolic value",
 		boundsT: "paths <= 11, Group host <= 5 / path <= 4, Hosts host <= 9, patterns <= 8 bytes",
 		outside: "longer inputs (the math.MaxInt16 segment limit is not reachable); Host bytes >= 0x80 (strings.ToLower is modelled for ASCII only); arbitrary Accept headers (mime.ParseMediaType runs natively on 6 concrete headers); panics raised by user handlers or interceptors",
 		assume:  []string{"regexp.Compile on a symbolic expression is an uninterpreted, consistent function of its bytes that never panics"},
@@ -89,7 +89,7 @@ var propSpecs = []propSpec{
 		id: "C08",
 		runs: []runSpec{
 			{dir: "mux", entry: "ZZC08Head", quick: []int{3}, thorough: []int{3}},
-			{dir: "mux", entry: "ZZC08Hist", quick: []int{1, 2, 3}, thorough: []int{1, 2, 3, 4}, mapRev: true},
+			{dir: "mux", entry: "ZZC08Hist", quick: []int{1, 2, 3, 13}, thorough: []int{1, 2, 3, 4, 14}, mapRev: true},
 			{dir: "mux", entry: "ZZC08Reg", quick: []int{7, 107}, thorough: []int{8, 108}},
 			{dir: "mux", entry: "ZZC08Rec", quick: []int{2}, thorough: []int{3}},
 		},
@@ -103,7 +103,7 @@ var propSpecs = []propSpec{
 	{
 		id: "C17",
 		runs: []runSpec{
-			{dir: "mux", entry: "ZZC17", quick: []int{2002, 12002, 22002, 32002, 42002, 112001, 122001, 222001, 312001, 422001, 442001}, thorough: []int{3003, 13003, 23003, 33003, 43003, 112002, 122002, 222002, 312002, 422002, 442002, 102002, 202002}},
+			{dir: "mux", entry: "ZZC17", quick: []int{2002, 12002, 22002, 32002, 42002, 112001, 122001, 222001, 312001, 422001, 442001, 3000, 13000}, thorough: []int{3003, 13003, 23003, 33003, 43003, 112002, 122002, 222002, 312002, 422002, 442002, 102002, 202002, 4000, 14000}},
 		},
 		covers:  []string{"accepted", "rejected"},
 		bounds:  "5 route tables (one with a split literal node whose inner node is a candidate pattern), optionally after an earlier Handle that was rejected for its method (it may leave handler-less nodes behind); one Handle call with a pattern from a 17-pattern pool (live, name variants, '-' variants, rule variants, new, 6 malformed) and a method list of <= 2 entries from {GET, POST, HEAD, OPTIONS, unknown}, single-entry lists with every method string of <= 3 bytes; compared before/after a rejected call: Routes(), the Allow header of every live pattern (OPTIONS and 405), and the outcome of the same symbolic request (path <= 2 bytes x 4 methods incl. HEAD); accept/reject clauses against an independent shape comparison",
@@ -138,7 +138,7 @@ var propSpecs = []propSpec{
 	{
 		id: "C11",
 		runs: []runSpec{
-			{dir: "mux", entry: "ZZC11", quick: []int{10001, 10101, 10203, 10303, 11001, 11101, 11203, 11303, 12001, 12101, 12203, 12303, 13001, 13101, 13203, 13303, 14001, 14101, 14203, 14303, 15001, 16001, 17001, 18001, 12403, 13403},
+			{dir: "mux", entry: "ZZC11", quick: []int{10001, 10101, 10203, 10303, 11001, 11101, 11203, 11303, 12001, 12101, 12203, 12303, 13001, 13101, 13203, 13303, 14001, 14101, 14203, 14303, 15001, 16001, 17001, 18001, 12403, 13403, 12501},
 				thorough: []int{10002, 10102, 10205, 10305, 11002, 11102, 11205, 11305, 12002, 12102, 12205, 12305, 13002, 13102, 13205, 13305, 14002, 14102, 14205, 14305, 15002, 16002, 17002, 18002, 12405, 13405}},
 		},
 		covers:  []string{"deny", "404-405", "preflight-unserved-method", "preflight-disallowed-header"},
@@ -208,11 +208,11 @@ var propSpecs = []propSpec{
 	{
 		id: "C18",
 		runs: []runSpec{
-			{dir: "mux", entry: "ZZC18", quick: append(seq(50, []int{0, 1, 2, 3, 4, 5, 6, 7, 8, 9, 10, 11, 12, 13, 14, 15, 16}, 6), seq(0, []int{0, 1, 2, 3, 4, 5, 6, 7, 8, 9, 10, 11, 12, 13, 14, 15, 16}, 6)...), thorough: append(seq(50, []int{0, 1, 2, 3, 4, 5, 6, 7, 8, 9, 10, 11, 12, 13, 14, 15, 16}, 9), seq(0, []int{0, 1, 2, 3, 4, 5, 6, 7, 8, 9, 10, 11, 12, 13, 14, 15, 16}, 9)...)},
+			{dir: "mux", entry: "ZZC18", quick: append(seq(50, []int{0, 1, 2, 3, 4, 5, 6, 7, 8, 9, 10, 11, 12, 13, 14, 15, 16, 17, 18, 19, 20, 21, 22}, 6), seq(0, []int{0, 1, 2, 3, 4, 5, 6, 7, 8, 9, 10, 11, 12, 13, 14, 15, 16, 17, 18, 19, 20, 21, 22}, 6)...), thorough: append(seq(50, []int{0, 1, 2, 3, 4, 5, 6, 7, 8, 9, 10, 11, 12, 13, 14, 15, 16, 17, 18, 19, 20, 21, 22}, 9), seq(0, []int{0, 1, 2, 3, 4, 5, 6, 7, 8, 9, 10, 11, 12, 13, 14, 15, 16, 17, 18, 19, 20, 21, 22}, 9)...)},
 			{dir: "trace", entry: "ZZC18Helper", quick: []int{0, 1, 2}, thorough: []int{0, 1, 2}},
 		},
 		covers:  []string{"trace-configured", "trace-not-configured", "dump-ok", "dump-error"},
-		bounds:  "TRACE request with every path of <= 6 bytes on the 17 table histories of C01 between two Use calls, with WithTrace (configured handler, exactly the Use middlewares with arguments TRACE/\"\"/router, no parameters, manual registration refused, TRACE in every Allow set incl. OPTIONS *) and without (404/405 per the documented resolution, TRACE registrable and then served); helper: httputil.DumpRequest nondeterministic (arbitrary error, or arbitrary dump of <= 3 bytes incl. HTML metacharacters), status 200, Content-Type read from the header snapshot taken at WriteHeader, body = html.EscapeString(dump), error passthrough, without body and with a body of undeclared and of declared length",
+		bounds:  "TRACE request with every path of <= 6 bytes on the 23 table histories of C01 between two Use calls, with WithTrace (configured handler, exactly the Use middlewares with arguments TRACE/\"\"/router, no parameters, manual registration refused, TRACE in every Allow set incl. OPTIONS *) and without (404/405 per the documented resolution, TRACE registrable and then served); helper: httputil.DumpRequest nondeterministic (arbitrary error, or arbitrary dump of <= 3 bytes incl. HTML metacharacters), status 200, Content-Type read from the header snapshot taken at WriteHeader, body = html.EscapeString(dump), error passthrough, without body and with a body of undeclared and of declared length",
 		boundsT: "paths <= 9 bytes",
 		outside: "the content of real request dumps (httputil.DumpRequest is stubbed; natively it is the real function)",
 		stubs:   append(append([]string{}, stdStubs...), "net/http/httputil.DumpRequest: arbitrary error or arbitrary <= 3 bytes, deterministic per request; html.EscapeString: byte-wise model of the five replacements"),
